@@ -11,22 +11,24 @@ THEOREMS = [
     'Ndn.C13.match_terminates', 'Ndn.C13.match_stable', 'Ndn.C13.check_terminates',
     'Ndn.C13.match_no_exception', 'Ndn.C13.sign_cycle_rejected',
     'Ndn.C13.compile_rejects_bad_reference', 'Ndn.C13.compile_rejects_reference_cycle', 'Ndn.C13.compile_rejects_bad_constraint',
-    'Ndn.C13.compile_structure_sane', 'Ndn.C13.compile_accepted_iff', 'Ndn.C13.compile_sane',
-    'Ndn.C13.compile_sane_partial',
+    'Ndn.C13.compile_rejects_undefined_signer', 'Ndn.C13.compile_rejects_unknown_signer', 'Ndn.C13.compile_only_semantic_errors',
+    'Ndn.C13.compile_ok_iff_static', 'Ndn.C13.compile_structure_sane', 'Ndn.C13.compile_accepted_iff', 'Ndn.C13.compile_sane',
+    'Ndn.C13.compile_static_sane', 'Ndn.C13.compile_sane_partial',
 ]
 PARTIAL = {
     'Ndn.C13.compile_sane_partial':
         'the compiler passes (_sort_rule_references/top_order, _gen_pattern_numbers, _replicate_rules/_fresh_temp_tags, '
         '_generate_node/pattern_movement, _fix_signing_references) ARE modelled in Lean (Ndn.Lvs.compile) and tied to compile_lvs on '
         'every run by comparing node pools and verdicts on every generated / error-injected schema. Proved about the compiler model: '
-        'a reference to an undefined or temporary rule, cyclic rule references, a constraint on / option or argument naming a pattern '
-        'written nowhere, a constraint on a temporary pattern the rule does not write, and a temporary pattern used as constraint value '
-        'each give SemanticError (compile_rejects_*); every model emitted for an AST the parser can produce is structurally sane '
-        '(never LvsModelError) and is accepted by the loader iff its reachable nodes do not sign each other in a cycle, else '
-        'SemanticError (compile_structure_sane, compile_accepted_iff, compile_sane; this includes the converse of sign_cycle_rejected: '
-        'acyclic => top_order accepts). NOT proved, still oracle/correspondence only: an undefined signer is refused (pass 5); a schema '
-        'without any static error does compile (no pass raises); the node-level signing cycle read back in terms of the source rules '
-        '(node merging can make a name pattern its own signer although the rule-level graph is acyclic).',
+        'it raises exactly on the schemas with a static error - a reference to an undefined or temporary rule, cyclic rule references, '
+        'a constraint on / option or argument naming a pattern written nowhere, a constraint on a temporary pattern the rule does not '
+        'write, a temporary pattern used as constraint value, an undefined signer - and then always SemanticError (compile_ok_iff_static, '
+        'compile_rejects_*, compile_only_semantic_errors: no KeyError escapes, the recursion is bounded); every model emitted for an AST '
+        'the parser can produce is structurally sane (never LvsModelError) and is accepted by the loader iff its reachable nodes do not '
+        'sign each other in a cycle, else SemanticError (compile_structure_sane, compile_accepted_iff, compile_sane, compile_static_sane; '
+        'this includes the converse of sign_cycle_rejected: acyclic => top_order accepts). NOT proved, still oracle/correspondence only: '
+        'the node-level signing cycle read back in terms of the source rules ("no name pattern is its own signer": node merging can '
+        'make a name pattern its own signer although the rule-level graph is acyclic).',
 }
 TRUSTED = [
     'C13: the binary model enters the Lean model after LvsModel.parse (the TLV codec is C08); a model whose StartId or '
@@ -401,7 +403,8 @@ def model_obs(answer, case, impl):
     if case['kind'] == 'schema':
         if parts[0] == 'cerr':
             return {'compile': parts[1]}
-        assert parts[0] == 'ok' and len(parts) == 4, answer[:100]
+        assert parts[0] == 'ok' and len(parts) == 5, answer[:100]
+        parts = parts[:3] + parts[4:]       # parts[3] is the merge-key flag, which C11 checks
         exact = parts[1] == impl['token'] and parts[2] == impl['symbols']
         impl['_exact'] = exact              # pools equal only up to numbering are compared in canonical form
         return {'compile': 'ok', 'node_pool': parts[1] if exact else L.canon_pool(parts[1], parts[2]), 'checker': parts[3]}
@@ -494,12 +497,13 @@ LEVEL_TEXT = ('Lean 4 theorems over a hand-written model of Checker._sanity_chec
               'proves that "parent = source" makes the reachable part a tree, so the dfs ends within its fuel); on every accepted '
               'model the iterative back-tracking search ends within an explicit bound stepBound(maxPE, |name|) for every name, '
               'context and user-function dictionary; check only runs such searches. The compiler (compiler.py, all passes as written) is '
-              'modelled as well: static errors of the listed kinds give SemanticError, and every emitted model is structurally sane and '
-              'accepted iff there is no signing cycle among its nodes. Tied to the code on every run by differential '
+              'modelled as well: it raises exactly on the schemas with a static error of the listed kinds, and then SemanticError; every '
+              'emitted model is structurally sane and accepted iff there is no signing cycle among its nodes. Tied to the code on every run by differential '
               'execution: schema ASTs (well-formed and with one injected error) through the Lean compiler + loader vs compile_lvs + Checker '
               '(node pools compared), the compiled model against the real Checker.load/match/check on single-field corruptions of '
               'compiled models, plus the property oracle (documented rules, step cap, static errors) on the implementation.')
-LEVEL_NOTE = ('Proof is about the model; model=code is sampled. Of the schema-level half, "undefined signer => SemanticError" and '
-              '"error-free schema => compiles" are not proved (oracle + correspondence only); see compile_sane_partial.')
+LEVEL_NOTE = ('Proof is about the model; model=code is sampled. The schema-level half is proved for the compiler model (raises exactly on '
+              'static errors, SemanticError only; output sane; accepted iff no node-level signing cycle); the source-level reading of '
+              '"signing cycle" is not (see compile_sane_partial).')
 TECHNIQUE = 'Lean 4 proof (simulation of the iterative search by structural recursion; dfs soundness/completeness with a pigeonhole argument; invariants of the compiler passes; Kahn both directions) + model/implementation correspondence check (compiler, loader, matcher) + schema-level oracle'
 DESIGN_REF = 'DESIGN.md section 7, C13; findings F10, F16'
